@@ -129,3 +129,37 @@ Theorem gs_sum_is_batch_grad (B n : nat) (gs : nat -> nat -> K) (pairing : nat -
   sumn n (fun i => sumn B (fun s => gs s i) * d i) = sumn B pairing.
 Proof. exact (uses_accumulate B n gs pairing d). Qed.
 End LayersP.
+
+(* ---- hook bookkeeping (Model/GsHooks.v): k uses of a layer in one forward, then the k matching backward hooks *)
+From OV Require Import Model.GsHooks.
+Section HooksP.
+Variable K : Type.
+Variable k0 : K.
+Variable kadd : K -> K -> K.
+Lemma fwd_iter_eq k n c l : Nat.iter k (fwd K) (mkp K n c l) = mkp K (k + n) c l.
+Proof. induction k as [|k IH]; [reflexivity|]. cbn [Nat.iter nat_rect]. unfold Nat.iter in IH. rewrite IH. reflexivity. Qed.
+(* while uses are outstanding the samples are ADDED (prefix-wise) into the accumulator; the last hook promotes it and deletes it *)
+Lemma bwd_rest mb (gs : list (list K)) : forall (c : list K) (l : list (list K)), gs <> [] ->
+  fold_left (bwd K k0 kadd mb) gs (mkp K (length gs) (Some c) l) = mkp K 0 None (l ++ [fold_left (prefix_add K kadd) gs c]).
+Proof.
+  induction gs as [|g gs IH]; intros c l Hne; [contradiction|].
+  destruct gs as [|g' gs'].
+  - reflexivity.
+  - change (fold_left (bwd K k0 kadd mb) (g :: g' :: gs') (mkp K (length (g :: g' :: gs')) (Some c) l))
+      with (fold_left (bwd K k0 kadd mb) (g' :: gs') (mkp K (length (g' :: gs')) (Some (prefix_add K kadd c g)) l)).
+    rewrite IH by discriminate. reflexivity.
+Qed.
+(* for ANY number of uses (tied weights, recurrent time steps with shrinking batches) and any samples already stacked from earlier batches:
+   after the matching backward hooks the counter is 0, the accumulator is gone, and ONE new entry -- the prefix-wise sum of the per-use
+   samples, zero-padded to the batch length -- has been appended (stacked, not added) to grad_sample *)
+Theorem uses_then_promote (mb : nat) (g1 : list K) (gs : list (list K)) (stacked : list (list K)) :
+  fold_left (bwd K k0 kadd mb) (g1 :: gs) (Nat.iter (S (length gs)) (fwd K) (mkp K 0 None stacked))
+  = mkp K 0 None (stacked ++ [fold_left (prefix_add K kadd) gs (pad K k0 mb g1)]).
+Proof.
+  rewrite fwd_iter_eq. rewrite Nat.add_0_r. destruct gs as [|g gs].
+  - reflexivity.
+  - change (fold_left (bwd K k0 kadd mb) (g1 :: g :: gs) (mkp K (S (length (g :: gs))) None stacked))
+      with (fold_left (bwd K k0 kadd mb) (g :: gs) (mkp K (length (g :: gs)) (Some (pad K k0 mb g1)) stacked)).
+    apply bwd_rest. discriminate.
+Qed.
+End HooksP.
